@@ -309,6 +309,26 @@ func main() {
 				output.Errors = append(output.Errors, fmt.Sprintf("%s: %v", k, err))
 			}
 			// vacuity guard: some exit of the function is reachable under all assumptions made
+			{
+				pall := map[string]bool{}
+				for _, o := range c.obls {
+					for _, p := range o.Props {
+						if p != "*" {
+							pall[p] = true
+						}
+					}
+				}
+				var ps []string
+				for p := range pall {
+					ps = append(ps, p)
+				}
+				sort.Strings(ps)
+				for _, o := range c.obls {
+					if len(o.Props) == 1 && o.Props[0] == "*" {
+						o.Props = ps // automatic invariants serve every property this function has obligations for
+					}
+				}
+			}
 			if len(c.rets) > 0 {
 				pall := map[string]bool{}
 				for _, o := range c.obls {
